@@ -31,9 +31,10 @@ import (
 // ---------------------------------------------------------------- fault-injecting driver
 
 type Call struct {
-	Kind  string `json:"k"` // graph | newgraph | deletegraph | graphnames | add | remove | read
-	Graph string `json:"g"`
-	Occ   int    `json:"n"`
+	Kind   string `json:"k"` // graph | newgraph | deletegraph | graphnames | add | remove | read
+	Graph  string `json:"g"`
+	Occ    int    `json:"n"`
+	Method string `json:"m"` // the storage.Store / storage.Graph method that was called
 }
 
 type Fault struct {
@@ -58,11 +59,11 @@ func newFStore(inner storage.Store, sched map[string]Fault) *fstore {
 }
 
 // next registers a driver call and returns the schedule entry it consumes (nil = ok).
-func (s *fstore) next(kind, graph string) *Fault {
+func (s *fstore) next(kind, graph, method string) *Fault {
 	s.mu.Lock()
 	defer s.mu.Unlock()
 	k := kind + "|" + graph
-	c := Call{Kind: kind, Graph: graph, Occ: s.count[k]}
+	c := Call{Kind: kind, Graph: graph, Occ: s.count[k], Method: method}
 	s.count[k]++
 	s.log = append(s.log, c)
 	if f, ok := s.sched[c.key()]; ok {
@@ -75,7 +76,7 @@ func (s *fstore) Name(ctx context.Context) string    { return s.inner.Name(ctx) 
 func (s *fstore) Version(ctx context.Context) string { return s.inner.Version(ctx) }
 
 func (s *fstore) NewGraph(ctx context.Context, id string) (storage.Graph, error) {
-	if f := s.next("newgraph", id); f != nil {
+	if f := s.next("newgraph", id, "Store.NewGraph"); f != nil {
 		return nil, errInjected
 	}
 	g, err := s.inner.NewGraph(ctx, id)
@@ -86,7 +87,7 @@ func (s *fstore) NewGraph(ctx context.Context, id string) (storage.Graph, error)
 }
 
 func (s *fstore) Graph(ctx context.Context, id string) (storage.Graph, error) {
-	if f := s.next("graph", id); f != nil {
+	if f := s.next("graph", id, "Store.Graph"); f != nil {
 		return nil, errInjected
 	}
 	g, err := s.inner.Graph(ctx, id)
@@ -97,14 +98,14 @@ func (s *fstore) Graph(ctx context.Context, id string) (storage.Graph, error) {
 }
 
 func (s *fstore) DeleteGraph(ctx context.Context, id string) error {
-	if f := s.next("deletegraph", id); f != nil {
+	if f := s.next("deletegraph", id, "Store.DeleteGraph"); f != nil {
 		return errInjected
 	}
 	return s.inner.DeleteGraph(ctx, id)
 }
 
 func (s *fstore) GraphNames(ctx context.Context, names chan<- string) error {
-	f := s.next("graphnames", "")
+	f := s.next("graphnames", "", "Store.GraphNames")
 	if f == nil {
 		return s.inner.GraphNames(ctx, names)
 	}
@@ -137,7 +138,7 @@ type fgraph struct {
 func (g *fgraph) ID(ctx context.Context) string { return g.inner.ID(ctx) }
 
 func (g *fgraph) write(kind string, ts []*triple.Triple, f func([]*triple.Triple) error) error {
-	ft := g.s.next(kind, g.name)
+	ft := g.s.next(kind, g.name, map[string]string{"add": "Graph.AddTriples", "remove": "Graph.RemoveTriples"}[kind])
 	if ft == nil {
 		return f(ts)
 	}
@@ -159,7 +160,7 @@ func (g *fgraph) RemoveTriples(ctx context.Context, ts []*triple.Triple) error {
 }
 
 func (g *fgraph) Exist(ctx context.Context, t *triple.Triple) (bool, error) {
-	if f := g.s.next("read", g.name); f != nil {
+	if f := g.s.next("read", g.name, "Graph.Exist"); f != nil {
 		return false, errInjected
 	}
 	return g.inner.Exist(ctx, t)
@@ -167,8 +168,8 @@ func (g *fgraph) Exist(ctx context.Context, t *triple.Triple) (bool, error) {
 
 // stream runs a streaming lookup under the schedule: the driver contract (close the channel before returning) is
 // kept by the failing driver as well.
-func stream[T any](g *fgraph, out chan<- T, call func(chan<- T) error) error {
-	f := g.s.next("read", g.name)
+func stream[T any](g *fgraph, method string, out chan<- T, call func(chan<- T) error) error {
+	f := g.s.next("read", g.name, "Graph."+method)
 	if f == nil {
 		return call(out)
 	}
@@ -189,43 +190,43 @@ func stream[T any](g *fgraph, out chan<- T, call func(chan<- T) error) error {
 }
 
 func (g *fgraph) Objects(ctx context.Context, s *node.Node, p *predicate.Predicate, lo *storage.LookupOptions, objs chan<- *triple.Object) error {
-	return stream(g, objs, func(c chan<- *triple.Object) error { return g.inner.Objects(ctx, s, p, lo, c) })
+	return stream(g, "Objects", objs, func(c chan<- *triple.Object) error { return g.inner.Objects(ctx, s, p, lo, c) })
 }
 func (g *fgraph) Subjects(ctx context.Context, p *predicate.Predicate, o *triple.Object, lo *storage.LookupOptions, subs chan<- *node.Node) error {
-	return stream(g, subs, func(c chan<- *node.Node) error { return g.inner.Subjects(ctx, p, o, lo, c) })
+	return stream(g, "Subjects", subs, func(c chan<- *node.Node) error { return g.inner.Subjects(ctx, p, o, lo, c) })
 }
 func (g *fgraph) PredicatesForSubject(ctx context.Context, s *node.Node, lo *storage.LookupOptions, prds chan<- *predicate.Predicate) error {
-	return stream(g, prds, func(c chan<- *predicate.Predicate) error { return g.inner.PredicatesForSubject(ctx, s, lo, c) })
+	return stream(g, "PredicatesForSubject", prds, func(c chan<- *predicate.Predicate) error { return g.inner.PredicatesForSubject(ctx, s, lo, c) })
 }
 func (g *fgraph) PredicatesForObject(ctx context.Context, o *triple.Object, lo *storage.LookupOptions, prds chan<- *predicate.Predicate) error {
-	return stream(g, prds, func(c chan<- *predicate.Predicate) error { return g.inner.PredicatesForObject(ctx, o, lo, c) })
+	return stream(g, "PredicatesForObject", prds, func(c chan<- *predicate.Predicate) error { return g.inner.PredicatesForObject(ctx, o, lo, c) })
 }
 func (g *fgraph) PredicatesForSubjectAndObject(ctx context.Context, s *node.Node, o *triple.Object, lo *storage.LookupOptions, prds chan<- *predicate.Predicate) error {
-	return stream(g, prds, func(c chan<- *predicate.Predicate) error {
+	return stream(g, "PredicatesForSubjectAndObject", prds, func(c chan<- *predicate.Predicate) error {
 		return g.inner.PredicatesForSubjectAndObject(ctx, s, o, lo, c)
 	})
 }
 func (g *fgraph) TriplesForSubject(ctx context.Context, s *node.Node, lo *storage.LookupOptions, trpls chan<- *triple.Triple) error {
-	return stream(g, trpls, func(c chan<- *triple.Triple) error { return g.inner.TriplesForSubject(ctx, s, lo, c) })
+	return stream(g, "TriplesForSubject", trpls, func(c chan<- *triple.Triple) error { return g.inner.TriplesForSubject(ctx, s, lo, c) })
 }
 func (g *fgraph) TriplesForPredicate(ctx context.Context, p *predicate.Predicate, lo *storage.LookupOptions, trpls chan<- *triple.Triple) error {
-	return stream(g, trpls, func(c chan<- *triple.Triple) error { return g.inner.TriplesForPredicate(ctx, p, lo, c) })
+	return stream(g, "TriplesForPredicate", trpls, func(c chan<- *triple.Triple) error { return g.inner.TriplesForPredicate(ctx, p, lo, c) })
 }
 func (g *fgraph) TriplesForObject(ctx context.Context, o *triple.Object, lo *storage.LookupOptions, trpls chan<- *triple.Triple) error {
-	return stream(g, trpls, func(c chan<- *triple.Triple) error { return g.inner.TriplesForObject(ctx, o, lo, c) })
+	return stream(g, "TriplesForObject", trpls, func(c chan<- *triple.Triple) error { return g.inner.TriplesForObject(ctx, o, lo, c) })
 }
 func (g *fgraph) TriplesForSubjectAndPredicate(ctx context.Context, s *node.Node, p *predicate.Predicate, lo *storage.LookupOptions, trpls chan<- *triple.Triple) error {
-	return stream(g, trpls, func(c chan<- *triple.Triple) error {
+	return stream(g, "TriplesForSubjectAndPredicate", trpls, func(c chan<- *triple.Triple) error {
 		return g.inner.TriplesForSubjectAndPredicate(ctx, s, p, lo, c)
 	})
 }
 func (g *fgraph) TriplesForPredicateAndObject(ctx context.Context, p *predicate.Predicate, o *triple.Object, lo *storage.LookupOptions, trpls chan<- *triple.Triple) error {
-	return stream(g, trpls, func(c chan<- *triple.Triple) error {
+	return stream(g, "TriplesForPredicateAndObject", trpls, func(c chan<- *triple.Triple) error {
 		return g.inner.TriplesForPredicateAndObject(ctx, p, o, lo, c)
 	})
 }
 func (g *fgraph) Triples(ctx context.Context, lo *storage.LookupOptions, trpls chan<- *triple.Triple) error {
-	return stream(g, trpls, func(c chan<- *triple.Triple) error { return g.inner.Triples(ctx, lo, c) })
+	return stream(g, "Triples", trpls, func(c chan<- *triple.Triple) error { return g.inner.Triples(ctx, lo, c) })
 }
 
 // ---------------------------------------------------------------- runs
@@ -263,7 +264,7 @@ func build(ctx context.Context, prefix []string) storage.Store {
 
 // settle waits (briefly) for the goroutine count to come back to the level before the statement.
 func settle(before int) int {
-	for i := 0; i < 40; i++ {
+	for i := 0; i < 400; i++ {
 		if d := runtime.NumGoroutine() - before; d <= 0 {
 			return d
 		}
@@ -291,6 +292,29 @@ func oneRun(ctx context.Context, prefix []string, s VStmt, bulk int, sched []Sch
 	return Run{Bulk: bulk, Prefix: prefix, Stmt: s, Sched: sched, Class: r.Class, Err: r.Err, Calls: calls,
 		After: Listing(ctx, inner, b), GorDiff: left, Millis: ms}
 }
+
+// one statement per driver entry point the planner can reach (the shapes of simpleFetch / simpleExist, the
+// per-row specialisations, the writes, the graph calls); always run first
+var coverage = []struct {
+	text string
+	ins  []string
+}{
+	{`SELECT ?p, ?o FROM ?a WHERE { /u<a> ?p ?o };`, []string{"?a"}},                              // S: TriplesForSubject
+	{`SELECT ?s, ?o FROM ?a WHERE { ?s "p"@[] ?o };`, []string{"?a"}},                             // P: TriplesForPredicate
+	{`SELECT ?s, ?p FROM ?a WHERE { ?s ?p /u<b> };`, []string{"?a"}},                              // O: TriplesForObject
+	{`SELECT ?o FROM ?a, ?b WHERE { /u<a> "p"@[] ?o };`, []string{"?a", "?b"}},                    // SP: Objects
+	{`SELECT ?p FROM ?a WHERE { /u<a> ?p /u<b> };`, []string{"?a"}},                               // SO: PredicatesForSubjectAndObject
+	{`SELECT ?s FROM ?a WHERE { ?s "p"@[] /u<b> };`, []string{"?a"}},                              // PO: Subjects
+	{`SELECT ?o FROM ?a WHERE { /u<a> "p"@[] /u<b> . /u<b> ?p ?o };`, []string{"?a"}},             // SPO: simpleExist -> Exist
+	{`SELECT ?s, ?p, ?o FROM ?a WHERE { ?s ?p ?o };`, []string{"?a"}},                             // none: Triples
+	{`SELECT ?s, ?o FROM ?a WHERE { ?s "p"@[] ?o . ?s "p"@[] ?o };`, []string{"?a"}},              // per row, fully bound: simpleFetch -> Exist
+	{`SELECT ?s, ?x FROM ?a WHERE { ?s "p"@[] ?o . ?o "q"@[] ?x };`, []string{"?a"}},              // per row: Objects
+	{`SELECT ?s, ?x FROM ?a WHERE { ?s "p"@[] ?o . ?x "q"@[] ?o };`, []string{"?a"}},              // per row: Subjects
+	{`SELECT ?s, ?x FROM ?a WHERE { ?s "p"@[] ?o . OPTIONAL { ?o "q"@[] ?x } };`, []string{"?a"}}, // optional, per row
+	{`SELECT ?s, ?p2 FROM ?a WHERE { ?s "p"@[] ?o . ?o ?p2 /t<c> };`, []string{"?a"}},             // per row: PredicatesForSubjectAndObject
+}
+
+const coverageData = `INSERT DATA INTO ?a { /u<a> "p"@[] /u<b> . /u<a> "p"@[] /t<c> . /u<b> "p"@[] /u<b> . /t<c> "p"@[] /u<b> . /u<b> "q"@[] /t<c> . /t<c> "q"@[] /u<b> . /u<a> "q"@[] /u<b> };`
 
 var fixedSelects = []struct {
 	text string
@@ -321,6 +345,7 @@ func main() {
 	modes := []Fault{{Mode: "before"}, {Mode: "after", J: 1}, {Mode: "write"}}
 	bulks := []int{1, 2, 3, 100}
 
+	pool := Pool(NewBlanks())
 	for i := 0; i < *n; i++ {
 		b := NewBlanks()
 		g := &Gen{R: rnd, B: b}
@@ -335,6 +360,15 @@ func main() {
 		}
 		var s VStmt
 		switch {
+		case *only == "" && i < len(coverage):
+			prefix = append(prefix, coverageData)
+			s = VStmt{Kind: "select", Ins: coverage[i].ins, Vars: []string{"?s"}, WB: []string{"?s"}, Text: coverage[i].text}
+		case *only == "" && i < len(coverage)+len(pool):
+			// the writes and graph calls: INSERT, DELETE, CREATE, DROP, CONSTRUCT (plain, `;`, anchor binding), DECONSTRUCT
+			prefix = append(prefix, coverageData)
+			s = pool[i-len(coverage)]
+		case *only == "" && i == len(coverage)+len(pool):
+			s = VStmt{Kind: "show", Text: "SHOW GRAPHS;"}
 		case *only != "":
 			s = VStmt{Kind: "text", Text: *only}
 		case i%10 == 5:
@@ -388,7 +422,9 @@ func main() {
 		}
 		// two simultaneous failures
 		if len(ids) >= 2 {
-			a, c := ids[rnd.Intn(len(ids))], ids[rnd.Intn(len(ids))]
+			ai := rnd.Intn(len(ids))
+			ci := (ai + 1 + rnd.Intn(len(ids)-1)) % len(ids) // two different calls
+			a, c := ids[ai], ids[ci]
 			r := oneRun(ctx, prefix, s, bulk, []SchedEntry{{a, modes[rnd.Intn(3)]}, {c, modes[rnd.Intn(3)]}}, b)
 			r.Case, r.Prev, r.Reads = i, prev, reads
 			enc.Encode(r)
